@@ -88,10 +88,68 @@ def run(ctx):
 def run_catalog(ctx):
     """sources that declare imports, read with a catalog (exact / newer / older / missing tables): C10's histories"""
     import c10
+    class KnownHist(c10.Hist):
+        """the same histories of tables, probed only at the IDs whose text the context knows (the ones a copy must carry
+        by text), and without the closing out-of-range probe: every such document is accepted"""
+
+        def probes(self, sysn=2, full=True):
+            if self.dead is not None:
+                return
+            n = c10.ctx_size(self.ip.cx)
+            self.k += 1
+            sids = [sd for sd in (list(range(1, n + 1)) if n < 64 else [1, 9, 10, n]) if sd != 2 and c10.ctx_lookup(self.ip.cx, sd)[0] == "k"]
+            for sd in sids:
+                self.add(("val", c10.probe(sd, (sd + self.k) % 3)))
+            if full and sids:
+                self.add(("val", c10.vlist([c10.vsym(c10.S(sids[-1])), c10.vint(2, c10.S(sids[0]), c10.S(sids[-1])),
+                                            c10.vstruct([(c10.S(sids[-1]), c10.vsym(c10.S(sids[0])))])])))
+
+        def finish(self):
+            if self.dead is None:
+                self.valid_len = len(self.items)
+            return self
+
     lines = []
     seen = set()
-    for h in c10.gen_histories(ctx):
-        for ln in h.lines():
+    orig = c10.Hist
+    c10.Hist = KnownHist
+    try:
+        hists = c10.gen_histories(ctx)
+    finally:
+        c10.Hist = orig
+    # longer local lists under imports declared larger / smaller than the catalog's table, one probe per document: a
+    # Reader that places the locals at the wrong offset then still accepts the document and copies the wrong text
+    singles = []
+    imps = [[d] for d in c10.IMPORT_ALPHA + [(b"A", 1, 4), (b"A", 2, 7), (b"A", 2, 1), (b"B", 1, 3)]]
+    imps += [[d, e] for d in c10.IMPORT_ALPHA for e in c10.IMPORT_ALPHA]
+    for keys in c10.CATALOGS:
+        for il in imps:
+            for ns in (3, 5):
+                base = c10.Hist(keys)
+                base.add(("val", c10.table_value(il, [b"l%d" % i for i in range(ns)])))
+                if base.dead is not None:
+                    continue
+                n = c10.ctx_size(base.ip.cx)
+                for sd in range(10, n + 1):
+                    if c10.ctx_lookup(base.ip.cx, sd)[0] != "k":
+                        continue
+                    one = c10.Hist(keys)
+                    one.add(base.items[0])
+                    one.add(("val", c10.probe(sd, sd % 3)))
+                    one.valid_len = 2
+                    singles.append(one)
+    ctx.rng.shuffle(singles)
+    hists = list(hists) + singles[:ctx.scale(700, 20000)]
+    for h in hists:
+        if h is None or h.valid_len is None:
+            continue
+        items = h.items
+        cat = c10.cat_tokens(h.keys)
+        srcs = [c10.t_stream(items)]
+        if not any(it[0] == "val" and c10.has_text_only_syms(it[1]) for it in items):
+            srcs.append(c10.b_stream(items))
+        for sdoc in srcs:
+            ln = " ".join(["cattrav", "0", iongen.hx(sdoc)] + cat)
             if ln not in seen:
                 seen.add(ln)
                 lines.append(ln)
@@ -100,22 +158,35 @@ def run_catalog(ctx):
         lines = rng.sample(lines, ctx.scale(1500, 20000))
     src = run_go(lines)
     todo, want = [], []
+    skipped = 0
     for ln, g in zip(lines, src):
-        tr = iongen.project_trace(g)
-        if not tr.endswith("e0 F e0 F e0") or " u." in (" " + tr) or "[u." in tr or ";u." in tr:
-            continue        # not accepted, or it contains symbols whose text the source does not know
+        # what the document denotes is decided by the symbol-context rules (c10's interpreter over the request's bytes),
+        # not by the Reader under test: a Reader that resolves an ID to the wrong text copies the wrong text faithfully
+        try:
+            ip, why = c10.expectation(c10.parse_line(ln))
+        except c10.Unparsable:
+            skipped += 1
+            continue
+        if why is not None or any(tok.startswith("u.") or "[u." in tok or ";u." in tok for tok in ip.out):
+            skipped += 1
+            continue        # not a valid document, or it contains symbols whose text the source does not know
+        if not c10.project(g)[-5:] == c10.END_OK[-5:]:
+            skipped += 1
+            continue        # the Reader does not accept it (C10's matter): the property quantifies over accepted documents
+        w = " ".join(ip.out + c10.END_OK)
         t = ln.split(" ")
         for dst in ("text", "pretty", "binary"):
             todo.append(" ".join(["copycat", dst, t[2]] + t[3:]))
-            want.append(tr)
+            want.append(w)
     outs = run_go(todo)
     back = run_go(["btrav 0 " + o[3:] if o.startswith("ok ") else "btrav 0 x" for o in outs])
     ok = 0
     for ln, w, o, b in zip(todo, want, outs, back):
+        got = " ".join(c10.project(b))
         if not o.startswith("ok "):
             ctx.fail("property", "C05-copy-catalog", ln[:3000], "the copy loop failed on an accepted document: " + o[:80])
-        elif iongen.project_trace(b) != w:
-            ctx.fail("property", "C05-copy-catalog", ln[:3000], "copy reads back as '%s' but the source (with its catalog) reads as '%s'" % (iongen.project_trace(b)[:300], w[:300]))
+        elif got != w:
+            ctx.fail("property", "C05-copy-catalog", ln[:3000], "copy reads back as '%s' but the source document denotes '%s' (symbol-context rules)" % (got[:300], w[:300]))
         else:
             ok += 1
-    ctx.count("C05-copy-catalog", len(todo), [l[:300] for l in todo], agree=ok)
+    ctx.count("C05-copy-catalog", len(todo), [l[:300] for l in todo], agree=ok, sources_skipped=skipped)
